@@ -1,6 +1,7 @@
 import ParryModel.Proto
 import ParryModel.C12.Model
 import ParryModel.C12.Driver2
+import ParryModel.C12.Driver3
 import Std.Data.HashMap
 /-! C12 protocol handlers. -/
 namespace C12
@@ -265,6 +266,6 @@ def handler (fn : String) : Option Handler :=
               polyOracle none d
             | none => "fail unparsable-output")
         | none => "skip bad-args" }
-  | _ => none
+  | f => handler3 f
 
 end C12
